@@ -24,6 +24,28 @@ def union_cases(seed, n):
         r = g.r
         try:
             k = r.random()
+            if i % 15 == 7:
+                # ambiguous *named* branches (two enums sharing a symbol, two fixed of one size) inside a type that
+                # is reached again through a by-name reference: only the (name, value) form pins the branch
+                ns = r.choice(["", "demo"])
+                q = (ns + ".") if ns else ""
+                amb = r.choice([
+                    [{"type": "enum", "name": q + "Color", "symbols": ["RED", "OTHER"]}, {"type": "enum", "name": q + "Shape", "symbols": ["SQUARE", "OTHER"]}],
+                    [{"type": "fixed", "name": q + "FA", "size": 2}, {"type": "fixed", "name": q + "FB", "size": 2}]])
+                s = {"type": "record", "name": q + "Node", "fields": [
+                    {"name": "tag", "type": ["null"] + amb},
+                    {"name": "children", "type": {"type": "array", "items": q + "Node"}},
+                    {"name": "next", "type": ["null", q + "Node"]}]}
+                val = "OTHER" if amb[0]["type"] == "enum" else b"ab"
+
+                def node(depth):
+                    which = r.choice([0, 1])
+                    return {"tag": r.choice([None, (amb[which]["name"], val)]),
+                            "children": [node(depth - 1) for _ in range(r.randint(0, 2))] if depth > 0 else [],
+                            "next": node(depth - 1) if depth > 0 and r.random() < 0.5 else None}
+                data = [node(2) for _ in range(3)]
+                out.append((s, data, {"dtn": False, "strict": False}))
+                continue
             if k < 0.35:
                 s, data = gen.ambiguous_union_case(g)
             elif k < 0.7:
